@@ -96,6 +96,11 @@ def run(ctx):
             SC.judge(ctx, scalar.simple_filter_for(rng, lane2, fname), rng, select,
                      findings.sqlite_semantic_triggers, "coverage", extra_case=case_extra, profile=lane2)
     SC.math_of_int_lane(ctx, ctx.rng("mathint"), select, findings.sqlite_semantic_triggers, extra_case=case_extra, profile=clean)
+    SC.bracket_string_lane(ctx, ctx.rng("brackets"), select, findings.sqlite_semantic_triggers, extra_case=case_extra, profile=clean)
+    SC.grouping_grid_lane(ctx, ctx.rng("grid"), select, findings.sqlite_semantic_triggers, extra_case=case_extra, profile=clean)
+    SC.spelling_twin_lane(ctx, ctx.rng("twin"), select, findings.sqlite_semantic_triggers, extra_case=case_extra, profile=clean)
+    SC.neg_stack_lane(ctx, ctx.rng("negstack"), select, findings.sqlite_semantic_triggers, extra_case=case_extra,
+                      profile=clean, depth=ctx.pick(8, 12))
     SC.big_list_lane(ctx, ctx.rng("biglist"), select, findings.sqlite_semantic_triggers,
                      ctx.pick(6, 60), profile=clean)
     SC.machine_lane(ctx, ctx.rng("machine"), select, findings.sqlite_semantic_triggers,
